@@ -250,9 +250,15 @@ PROPERTIES["C25"] = {
           bounds="as above + 2 sync results for symbolic nodes (repeats included)"),
         H("c25_announcer_three_events", "shadow_sync", "verif_kani", "shadow_sync", tiers=Q, covers=2, functions=_F25, stubs=_S25,
           bounds="as above + 3 sync results for symbolic nodes (repeats included)"),
+    ] + [
+        H(f"c25_fetcher_{n}", "shadow_sync", "verif_kani", "shadow_sync", tiers=t, covers=2, stubs=_S25 + ["VecDeque -> 6-slot queue model (vcoll)", "FetchResults / FetchResult / Address -> models in the shim"], timeout={"quick": 1800, "thorough": 5400},
+          functions=["node::sync::fetch::Fetcher::{new,next_node,ready_to_fetch,next_fetch,fetch_complete,finish,progress,is_target_reached,success_counts,missing_seeds}", "FetcherConfig::{public,with_candidates}", "fetch::Target::new"],
+          bounds=f"local node, seed set (any subset of 4 nodes), one optional extra candidate (any node) and replication factor symbolic; {n.replace('_', ' ')} of next_node / ready / next_fetch / fetch_complete with a symbolic success-or-failure result")
+        for n, t in (("one_round", Q), ("two_rounds", T), ("three_rounds", T))
     ],
-    "outside": ["the Fetcher (node/sync/fetch.rs: needs FetchResults / Address / VecDeque of candidates) - not encoded, so the fetcher half of the property is not claimed",
-                "more than 4 nodes / more than 3 results"],
+    "outside": ["the Fetcher is driven the documented way only (next_node -> ready_to_fetch -> next_fetch -> fetch_complete): results for nodes that were never handed out (local node, duplicates) are not fed to it",
+                "radicle::node::{FetchResults, FetchResult, Address} are models in the shim (FetchResults keeps first result + counts per node), not /repo's code",
+                "more than 4 nodes / more than 3 results; FetcherConfig::private"],
     "assumptions": ["reference target: every preferred seed synced AND distinct synced nodes >= replication bound (upper bound of a range, else lower bound), replication factor clamped to the number of nodes to sync at construction"],
 }
 
